@@ -142,6 +142,11 @@ FLT_POOL = ["0.5", "-0.5", "1.5", "0.1", "1e-7", "1E5", "1e300", "-1e300", "5e-3
 STR_POOL = ["", "a", "A", "x y", " lead", "trail ", "h\u00e9llo w\u00f6rld", "\u4e2d\u6587", "\U0001F600 smile", "q\"uote", "back\\slash",
             "line\nfeed", "tab\there", "ctl\u0001x", "sl/ash", "true", "null", "{}", "[1]", "NaN-ish", "x0", "1a", "--1", "e5",
             "UPPER lower", "a.b.c", "*", "%", "caf\u00e9", "\u0000nul", "z" * 300, "\u00e9" * 200]
+# strings whose JSON text contains backslash escapes (\" \\ \n \t \uXXXX, surrogate pairs), of different lengths
+ESC_POOL = ["q\"uote", "back\\slash", "line\nfeed", "tab\there", "ctl\u0001x", "h\u00e9llo w\u00f6rld", "\u4e2d\u6587",
+            "\U0001F600 smile", "C:\\Users\\alice\\file.txt", "panic: boom\n\tmain.go:12 +0x1f", "\\", "\t", "\"", "a\nb",
+            "\n" * 40 + "tail", "\"" + "a" * 200 + "\"", "\u00e9" * 97, "x" * 150 + "\\" + "y" * 33, "{\"k\": \"v\"}",
+            "\r\n", "caf\u00e9 \"au lait\"\t5\u20ac", "\u0000nul\u0000"]
 NUMSTR_POOL = ["007", "1e3", "12", "-5", "1.0", "+5", "0x1p4", "1_0", "9223372036854775807", "0.50"]
 
 
@@ -298,6 +303,8 @@ class Concretiser:
         if kind == "str":
             if self.constlen:
                 return "".join(r.choice("abcXYZ") for _ in range(6))     # same encoded length for every record
+            if self.profile == "escapes":
+                return r.choice(ESC_POOL)                                  # every string value of the event is escaped
             return r.choice(STR_POOL)
         if kind == "numstr":
             return r.choice(NUMSTR_POOL)
@@ -327,13 +334,18 @@ class Concretiser:
         s, cls, tsc = act["s"], act["cls"], act["ts"]
         out = []
         kinds = self.kinds[cls]
-        for aid in act["ids"]:
+        abstract_time = self.profile == "ooo" and "ats" in act and self.mult == 1
+        for n_aid, aid in enumerate(act["ids"]):
             for j in range(self.mult):
                 cid = "e%d_%d" % (aid, j)
                 ev = {"id": cid}
                 # the class shapes the first concrete event; copies made by the multiplication advance by 1 ms
                 # (except same / none), so that 1000 x "far" does not run centuries ahead
-                ts = self.ts_for(s, tsc if (j == 0 or tsc in ("same", "none")) else "inc1")
+                if abstract_time:
+                    # the spec's abstract event time (not monotone in ingest order): 1 unit = 1 s
+                    ts = None if tsc == "none" else T0 + 10 ** 9 + act["ats"][n_aid] * 1000
+                else:
+                    ts = self.ts_for(s, tsc if (j == 0 or tsc in ("same", "none")) else "inc1")
                 if ts is not None:
                     ev["timestamp"] = ts
                 for c in self.cols:
@@ -602,6 +614,25 @@ def sparse_score(beh):
     return best
 
 
+def overlap_score(beh):
+    """From the spec's abstract block time ranges: over ordered pairs of segments (A, B) of a stream where B starts
+    and ends later than A and reaches into A (partial overlap), the number of A's blocks that lie wholly before B's
+    start.  This is the situation in which the searcher's recent-first rounds defer blocks to a later round."""
+    total = 0
+    for obs in beh["steps"][-1]["obs"].values():
+        segs = []
+        for sg in obs["lay"]:
+            bl = [(b["lo"], b["hi"]) for b in sg["blocks"]]
+            if bl:
+                segs.append((min(x[0] for x in bl), max(x[1] for x in bl), bl))
+        for a in segs:
+            for b in segs:
+                if a is b or not (b[1] > a[1] and a[0] < b[0] <= a[1]):
+                    continue
+                total += sum(1 for (lo, hi) in a[2] if hi < b[0])
+    return total
+
+
 def nontrivial(beh):
     acts = behaviour_kind(beh)
     return acts.count("ingest") >= 2 and ("rotate" in acts or "restart" in acts or acts.count("flush") >= 2)
@@ -641,6 +672,8 @@ def run(chk):
     sim = gen(chk, "Gen_LogStore_rt_sim.cfg", "Gen_LogStore_rt_sim", simulate="num=%d" % (150 if quick else 1500), depth=12,
               seed=seed)
     # several late-appearing / sparse columns per block (class table of 6 columns, 5 classes)
+    txt = gen(chk, "Gen_LogStore_txt.cfg", "Gen_LogStore_txt")      # several string columns per event
+    ooo = gen(chk, "Gen_LogStore_ooo.cfg", "Gen_LogStore_ooo")      # event times not monotone in ingest order
     late = gen(chk, "Gen_LogStore_late.cfg", "Gen_LogStore_late")
     late_sim = gen(chk, "Gen_LogStore_late_sim.cfg", "Gen_LogStore_late_sim", simulate="num=%d" % (120 if quick else 1200),
                    depth=16, seed=seed)
@@ -652,13 +685,16 @@ def run(chk):
         for b in vlib.sample(behs, n, seed * 1000003 + len(cases)):
             cases.append({"beh": b, "seed": seed * 7919 + len(cases), "profile": profile, "idx": len(cases), "tag": tag})
 
-    def add_stratified(behs, n, tag):
-        """half of the sample from the histories whose blocks have the most late-appearing / disappearing columns
-        (sparse_score), the other half uniformly: coverage of the 'sparse and late-appearing columns' quantifier"""
-        ranked = sorted(behs, key=lambda b: -sparse_score(b))
-        top = [b for b in ranked if sparse_score(b) >= max(1, sparse_score(ranked[0]) - 1)] if ranked else []
-        add(top, n // 2, "plain", tag)
-        add(behs, n - n // 2, "plain", tag)
+    def add_stratified(behs, n, tag, score=None, profile="plain"):
+        """half of the sample from the histories with the highest structural score, the other half uniformly.
+        sparse_score: late-appearing / disappearing columns per block ('sparse and late-appearing columns');
+        overlap_score: segments whose time ranges overlap partially, with whole blocks before the other's start"""
+        score = score or sparse_score
+        sc = {id(b): score(b) for b in behs}
+        best = max(sc.values()) if sc else 0
+        top = [b for b in behs if best > 0 and sc[id(b)] >= max(1, best - 1)]
+        add(top, n // 2, profile, tag)
+        add(behs, n - n // 2, profile, tag)
 
     interesting = [b for b in rt if nontrivial(b)]
     if quick:
@@ -671,6 +707,9 @@ def run(chk):
         add(cap, 2, "cap", "cap")
         add_stratified(late, 40, "late")
         add_stratified(late_sim, 30, "late-sim")
+        add(txt, 16, "escapes", "txt-escapes")
+        add(txt, 10, "plain", "txt")
+        add_stratified(ooo, 40, "ooo", score=overlap_score, profile="ooo")
     else:
         add(rt, 1500, "plain", "rt")
         add(rt2, 700, "plain", "rt2")
@@ -682,6 +721,9 @@ def run(chk):
         add(cap, 10, "cap", "cap")
         add_stratified(late, 600, "late")
         add_stratified(late_sim, 400, "late-sim")
+        add(txt, 250, "escapes", "txt-escapes")
+        add(txt, 150, "plain", "txt")
+        add_stratified(ooo, 600, "ooo", score=overlap_score, profile="ooo")
     # the statement's un-relaxed case: numeric-looking strings next to numbers (fixed classes)
     def same_block(b):
         cl = {}
